@@ -216,7 +216,9 @@ func runC06(c *an.Ctx) {
 		c.Floor("R1", "LTime stores of "+k.msg+" in "+k.method, n, 1)
 		// no second, separate advance of the same clock that the time depends on: exactly one Increment call
 		incs := an.FindInstrs(fn, func(in ssa.Instruction) bool {
-			return an.IsCallTo(in, "(*LamportClock).Increment") && an.Path(an.CallOf(in).Args[0]) == "&$0."+k.clock
+			// a call that advances this clock, directly or through a transparent one-line helper
+			call, ok := in.(*ssa.Call)
+			return ok && strings.Contains(an.Path(call), "(*LamportClock).Increment(&$0."+k.clock+")")
 		})
 		c.Add(len(incs) == 1, "R1", k.method+":single-advance", fn, "exactly one advance of "+k.clock+" per originated message", "call enumeration")
 	}
